@@ -101,9 +101,12 @@ def tree_text(t, counter=None):
     counter = counter if counter is not None else [0]
     counter[0] += 1
     # same name and same value text in every node, told apart only by a parameter (and once by the value)
-    out = [f"BEGIN:{t[0]}", f"X-N;I={counter[0]}:node", f"X-M:{counter[0]}"]
-    for ch in t[1]:
+    me = counter[0]
+    out = [f"BEGIN:{t[0]}", f"X-N;I={me}:node", f"X-M:{me}"]
+    for i, ch in enumerate(t[1]):
         out += tree_text(ch, counter)
+        # RFC 5545 does not order properties and sub-components: a property of THIS node after each child's END
+        out.append(f"X-AFTER;I={me}:{i}")
     out.append(f"END:{t[0]}")
     return out
 
